@@ -156,7 +156,9 @@ func (s *super) setStoreDecide(f func(ev sysboot.StoreEvent) sysboot.StoreDecisi
 
 type childOpts struct {
 	PackCount, PackTimer, SrcChannels int
-	PackMaxKB                         int // packer MaxMsgSize in KB (0: default)
+	PackMaxKB                         int  // packer MaxMsgSize in KB (0: default)
+	TTIntervalMs                      int  // source TimeTickInterval in ms (0: the world's default)
+	NoStoreEvents                     bool // the child does not announce its store calls to the supervisor
 	DebugLog                          bool
 }
 
@@ -187,6 +189,16 @@ func (s *super) startChild(o childOpts) error {
 	}
 	if o.PackMaxKB > 0 {
 		args = append(args, "-pack-maxkb", fmt.Sprint(o.PackMaxKB))
+	}
+	if o.TTIntervalMs > 0 {
+		args = append(args, "-tt-interval", fmt.Sprint(o.TTIntervalMs))
+	}
+	if o.NoStoreEvents {
+		for i := range args {
+			if args[i] == "-parent" {
+				args[i+1] = ""
+			}
+		}
 	}
 	cmd := exec.Command(os.Args[0], args...)
 	cmd.Env = append(os.Environ(), "GORACE=halt_on_error=0 exitcode=0 log_path="+filepath.Join(os.Getenv("VERIF_SCRATCH"), "race"))
